@@ -1,3 +1,1671 @@
-use crate::common::{Args, engine_error};
+//! Engine `dag`: explicit-state model checking of the REAL `pie_graph::DAG` (properties C10 and C11).
+//!
+//! Breadth-first search over operation sequences applied to a real `DAG<u8, u16>` in lock-step with a deliberately
+//! naive reference model (plain `Vec`s, reachability by naive DFS). Node data = creation index of the node, edge
+//! data = a marker unique to the `add_edge` call (position of the call in the operation path + 1), so an edge's data
+//! says WHICH insertion it stems from.
+//!
+//! * A search state is identified by the COMPLETE observable state of the real DAG through its public API (see
+//!   [`Obs`]): for every handle ever created (dead ones included): `contains_node`, rank from `iter_unsorted`,
+//!   outgoing and incoming adjacency in iteration order with edge data, plus `len()` and every `get_edge_data` entry
+//!   that is not explained by the adjacency lists. The `DAG` is not `Clone`: a state is stored as its operation path
+//!   (parent pointer + operation) and re-derived by replaying that path on a fresh `DAG` for EVERY transition; each
+//!   replay must reproduce the recorded state bytes, otherwise the run ends with an engine error.
+//! * Alphabet per state: `add_node` (while fewer than A nodes were ever created) and, for all handles `i`, `j` ever
+//!   created INCLUDING dead ones: `add_edge(i,j,marker)`, `remove_edge(i,j)`, `remove_outgoing_edges_of_node(i)`,
+//!   `remove_node(i)`.
+//! * `C10` and `C11` share the search; each run evaluates only the oracles of its own property.
+//!
+//! ## Why merging states on the canonical bytes is exact
+//!
+//! 1. *Handles are canonicalised by creation index.* The slotmap key (slot, version) of a handle depends on the
+//!    order of earlier removals (free list), but `DAG` uses keys only through `Eq`/`Hash`/slotmap lookup (the one
+//!    `Ord` use, the binary heap in `Descendants`, breaks ties between entries of EQUAL rank, i.e. of the same
+//!    node). A removed key never becomes valid again (slot versions only grow), whichever slot a later `add_node`
+//!    takes. Hence two DAGs whose dumps agree by creation index behave identically by creation index under every
+//!    future operation. (`iter_unsorted` order is slot order; it is read as a map node -> rank only.)
+//!    The search does NOT lean on this argument: the slot assignment (slot of every handle and the freed slots in
+//!    the order they were freed, i.e. everything that decides which key the next `add_node` returns) is appended
+//!    to the key, so states that differ only in it are explored separately, and operations on a dead handle whose
+//!    slot is occupied by a younger node are executed as such. `states_modulo_slot_assignment` counts the states
+//!    by observable dump alone and is compared with a closed-form count of all observable states.
+//! 2. *Edge-data markers are renumbered in order of first appearance in the dump.* `DAG<N, E, H>` is generic in `E`
+//!    without any bound: it can only move, store, drop and hand back `E` values (parametricity), never inspect
+//!    them. Its behaviour is therefore equivariant under every injective renaming of the markers. The oracles only
+//!    compare markers for equality against the model, whose markers are renamed by the same bijection, and every
+//!    future `add_edge` brings a marker that is fresh w.r.t. all markers present in either state. So two
+//!    (real, model) pairs whose dumps agree up to an injective marker renaming have identical futures up to that
+//!    renaming, and the renumbering (which picks one representative per renaming class) loses nothing.
+//! 3. *The model state is part of the key whenever it is not determined by the real dump.* The oracles of a
+//!    property read a projection of the model (C10: alive set and unordered edge set with data; C11: everything).
+//!    If that projection coincides with the same projection of the real dump, a flag byte 0 is appended; otherwise
+//!    flag 1 and the projection itself. Two paths are merged only if BOTH the real observable state and the
+//!    oracle-relevant model state agree.
+//! 4. State NOT in the dump: hash seeds (every replay builds a `DAG` with fresh `RandomState`s, so a dependence on
+//!    them would show as a non-reproducible replay = engine error), `last_topo_order` (shows as the rank of the
+//!    next `add_node`; ranks are in the dump and checked for gap-freeness by C10), and the DFS scratch space of
+//!    `contains_transitive_edge` (its irrelevance is part of C11 and is probed by repeated queries, not assumed).
 
-pub fn run(_args: &Args) -> i32 { engine_error("not implemented yet") }
+use std::collections::{BTreeMap, HashMap};
+use std::panic::{catch_unwind, AssertUnwindSafe};
+use std::sync::atomic::{AtomicUsize, Ordering as AtomicOrdering};
+use std::time::Instant;
+
+use pie_graph::{Error as DagError, Node, DAG};
+use serde_json::{json, Value};
+
+use crate::common::{engine_error, Args, Report, Tier, Violation};
+
+// ---------------------------------------------------------------------------------------------------------------
+// Operations
+// ---------------------------------------------------------------------------------------------------------------
+
+#[derive(Clone, Copy, PartialEq, Eq, Debug)]
+pub enum Prop { C10, C11 }
+
+impl Prop {
+  fn id(self) -> &'static str { match self { Prop::C10 => "C10", Prop::C11 => "C11" } }
+}
+
+/// One operation of the alphabet; node arguments are creation indices of handles.
+#[derive(Clone, Copy, PartialEq, Eq, Debug)]
+pub enum Op {
+  AddNode,
+  AddEdge(u8, u8),
+  RemoveEdge(u8, u8),
+  RemoveOut(u8),
+  RemoveNode(u8),
+}
+
+impl Op {
+  fn render(&self) -> String {
+    match *self {
+      Op::AddNode => "add_node".to_string(),
+      Op::AddEdge(i, j) => format!("add_edge({},{})", i, j),
+      Op::RemoveEdge(i, j) => format!("remove_edge({},{})", i, j),
+      Op::RemoveOut(i) => format!("remove_outgoing_edges_of_node({})", i),
+      Op::RemoveNode(i) => format!("remove_node({})", i),
+    }
+  }
+
+  fn parse(s: &str) -> Option<Op> {
+    let s = s.trim();
+    if s == "add_node" { return Some(Op::AddNode); }
+    let open = s.find('(')?;
+    if !s.ends_with(')') { return None; }
+    let name = &s[..open];
+    let args: Vec<u8> = s[open + 1..s.len() - 1]
+      .split(',')
+      .map(|a| a.trim().parse::<u8>())
+      .collect::<Result<Vec<_>, _>>()
+      .ok()?;
+    match (name, args.as_slice()) {
+      ("add_edge", [i, j]) => Some(Op::AddEdge(*i, *j)),
+      ("remove_edge", [i, j]) => Some(Op::RemoveEdge(*i, *j)),
+      ("remove_outgoing_edges_of_node", [i]) => Some(Op::RemoveOut(*i)),
+      ("remove_node", [i]) => Some(Op::RemoveNode(*i)),
+      _ => None,
+    }
+  }
+
+  /// Largest handle index the operation mentions.
+  fn max_handle(&self) -> Option<u8> {
+    match *self {
+      Op::AddNode => None,
+      Op::AddEdge(i, j) | Op::RemoveEdge(i, j) => Some(i.max(j)),
+      Op::RemoveOut(i) | Op::RemoveNode(i) => Some(i),
+    }
+  }
+}
+
+fn render_path(path: &[Op]) -> Vec<String> { path.iter().map(|o| o.render()).collect() }
+
+/// The edge-data marker of the operation at position `pos` of a path (unique per `add_edge` call, never 0).
+fn marker_for(pos: usize) -> u16 { (pos + 1) as u16 }
+
+/// The alphabet of a state in which `k` handles were ever created, bound `a` on nodes ever created.
+fn alphabet(k: usize, a: usize) -> Vec<Op> {
+  let mut ops = Vec::with_capacity(1 + 2 * k * k + 2 * k);
+  if k < a { ops.push(Op::AddNode); }
+  for i in 0..k as u8 {
+    for j in 0..k as u8 {
+      ops.push(Op::AddEdge(i, j));
+      ops.push(Op::RemoveEdge(i, j));
+    }
+  }
+  for i in 0..k as u8 {
+    ops.push(Op::RemoveOut(i));
+    ops.push(Op::RemoveNode(i));
+  }
+  ops
+}
+
+#[derive(Clone, Copy, PartialEq, Eq, Debug)]
+pub enum ErrKind { NodeMissing, CycleDetected }
+
+/// Result of an operation, in canonical (creation index) terms.
+#[derive(Clone, PartialEq, Eq, Debug)]
+pub enum Res {
+  Added(u8),
+  Edge(Result<bool, ErrKind>),
+  RemovedEdge(Option<u16>),
+  /// Removed (child, data) pairs, sorted (the property does not claim an order of the returned vector).
+  RemovedOut(Option<Vec<(u8, u16)>>),
+  RemovedNode(bool),
+}
+
+impl Res {
+  /// The result with edge data blanked: C10 says nothing about edge data, only C11 does.
+  fn without_data(&self) -> Res {
+    match self {
+      Res::RemovedEdge(Some(_)) => Res::RemovedEdge(Some(0)),
+      Res::RemovedOut(Some(v)) => Res::RemovedOut(Some(v.iter().map(|x| (x.0, 0)).collect())),
+      other => other.clone(),
+    }
+  }
+}
+
+fn res_json(r: &Res) -> Value {
+  match r {
+    Res::Added(i) => json!(format!("node {}", i)),
+    Res::Edge(Ok(b)) => json!(format!("Ok({})", b)),
+    Res::Edge(Err(e)) => json!(format!("Err({:?})", e)),
+    Res::RemovedEdge(None) => json!("None"),
+    Res::RemovedEdge(Some(d)) => json!(format!("Some(data {})", d)),
+    Res::RemovedOut(None) => json!("None"),
+    Res::RemovedOut(Some(v)) => json!({"Some (child,data), sorted": v}),
+    Res::RemovedNode(b) => json!(b),
+  }
+}
+
+// ---------------------------------------------------------------------------------------------------------------
+// The naive reference model
+// ---------------------------------------------------------------------------------------------------------------
+
+/// Deliberately naive model of the DAG's edge set. It has no notion of rank: the property fixes ranks only up to
+/// the constraints checked by the C10 oracles.
+#[derive(Clone, PartialEq, Eq, Debug, Default)]
+pub struct Model {
+  /// Per creation index.
+  pub alive: Vec<bool>,
+  /// All present edges (src, dst, data) in order of insertion.
+  pub edges: Vec<(u8, u8, u16)>,
+  /// Per node: (child, data) in order of first insertion of the currently present edge.
+  pub out: Vec<Vec<(u8, u16)>>,
+  /// Per node: (parent, data) in order of first insertion of the currently present edge.
+  pub inc: Vec<Vec<(u8, u16)>>,
+}
+
+impl Model {
+  pub fn new() -> Self { Self::default() }
+
+  fn k(&self) -> usize { self.alive.len() }
+
+  fn n_alive(&self) -> usize { self.alive.iter().filter(|a| **a).count() }
+
+  fn is_alive(&self, i: u8) -> bool { self.alive.get(i as usize).copied().unwrap_or(false) }
+
+  fn edge_data(&self, s: u8, d: u8) -> Option<u16> {
+    self.edges.iter().find(|e| e.0 == s && e.1 == d).map(|e| e.2)
+  }
+
+  /// Nodes reachable from `from` through at least one edge (naive DFS over the edge list).
+  fn reachable(&self, from: u8) -> Vec<bool> {
+    let mut seen = vec![false; self.k()];
+    let mut stack = vec![from];
+    while let Some(x) = stack.pop() {
+      for e in &self.edges {
+        if e.0 == x && !seen[e.1 as usize] {
+          seen[e.1 as usize] = true;
+          stack.push(e.1);
+        }
+      }
+    }
+    seen
+  }
+
+  fn reaches(&self, from: u8, to: u8) -> bool {
+    if !self.is_alive(from) || !self.is_alive(to) { return false; }
+    self.reachable(from)[to as usize]
+  }
+
+  pub fn apply(&mut self, op: Op, marker: u16) -> Res {
+    match op {
+      Op::AddNode => {
+        self.alive.push(true);
+        self.out.push(Vec::new());
+        self.inc.push(Vec::new());
+        Res::Added((self.k() - 1) as u8)
+      }
+      Op::AddEdge(s, d) => {
+        if !self.is_alive(s) || !self.is_alive(d) { return Res::Edge(Err(ErrKind::NodeMissing)); }
+        if s == d || self.reaches(d, s) { return Res::Edge(Err(ErrKind::CycleDetected)); }
+        if self.edge_data(s, d).is_some() { return Res::Edge(Ok(false)); }
+        self.edges.push((s, d, marker));
+        self.out[s as usize].push((d, marker));
+        self.inc[d as usize].push((s, marker));
+        Res::Edge(Ok(true))
+      }
+      Op::RemoveEdge(s, d) => {
+        if !self.is_alive(s) || !self.is_alive(d) { return Res::RemovedEdge(None); }
+        match self.edge_data(s, d) {
+          None => Res::RemovedEdge(None),
+          Some(data) => {
+            self.drop_edges(|e| e.0 == s && e.1 == d);
+            Res::RemovedEdge(Some(data))
+          }
+        }
+      }
+      Op::RemoveOut(s) => {
+        if !self.is_alive(s) || self.out[s as usize].is_empty() { return Res::RemovedOut(None); }
+        let mut removed = self.out[s as usize].clone();
+        removed.sort();
+        self.drop_edges(|e| e.0 == s);
+        Res::RemovedOut(Some(removed))
+      }
+      Op::RemoveNode(x) => {
+        if !self.is_alive(x) { return Res::RemovedNode(false); }
+        self.drop_edges(|e| e.0 == x || e.1 == x);
+        self.alive[x as usize] = false;
+        Res::RemovedNode(true)
+      }
+    }
+  }
+
+  fn drop_edges(&mut self, which: impl Fn(&(u8, u8, u16)) -> bool) {
+    let gone: Vec<(u8, u8, u16)> = self.edges.iter().filter(|e| which(e)).cloned().collect();
+    self.edges.retain(|e| !which(e));
+    for (s, d, _) in gone {
+      self.out[s as usize].retain(|c| c.0 != d);
+      self.inc[d as usize].retain(|p| p.0 != s);
+    }
+  }
+
+  fn to_json(&self) -> Value {
+    let nodes: Vec<Value> = (0..self.k())
+      .map(|i| json!({"handle": i, "alive": self.alive[i], "out (child,data)": self.out[i], "in (parent,data)": self.inc[i]}))
+      .collect();
+    json!({"nodes": nodes})
+  }
+}
+
+// ---------------------------------------------------------------------------------------------------------------
+// The real DAG and its observation
+// ---------------------------------------------------------------------------------------------------------------
+
+/// Index reported for a `Node` that is none of the handles ever created (cannot happen on a sane DAG).
+const UNKNOWN: u8 = 255;
+
+struct Real {
+  dag: DAG<u8, u16>,
+  /// Every handle ever created, by creation index (dead ones stay).
+  handles: Vec<Node>,
+  /// `add_node` returned a handle equal to an earlier one (would revive a dead handle).
+  handle_collision: bool,
+  /// Slot index of every handle (parsed from its `Debug` form, `None` if that form is not understood).
+  slots: Vec<Option<u32>>,
+  /// Slots of removed nodes that no younger handle occupies, in the order in which they were freed.
+  freed: Vec<u32>,
+}
+
+impl Real {
+  fn new() -> Self { Real { dag: DAG::new(), handles: Vec::new(), handle_collision: false, slots: Vec::new(), freed: Vec::new() } }
+
+  fn idx(&self, n: &Node) -> u8 { self.handles.iter().position(|h| h == n).map(|p| p as u8).unwrap_or(UNKNOWN) }
+
+  /// Slot index of a handle, parsed from its `Debug` form (`Node(DefaultKey(3v1))` = slot 3, version 1).
+  fn parse_slot(n: &Node) -> Option<u32> {
+    // Formatted into a stack buffer: this runs for every `add_node` of every replay.
+    struct Buf([u8; 64], usize);
+    impl std::fmt::Write for Buf {
+      fn write_str(&mut self, s: &str) -> std::fmt::Result {
+        let b = s.as_bytes();
+        if self.1 + b.len() > self.0.len() { return Err(std::fmt::Error); }
+        self.0[self.1..self.1 + b.len()].copy_from_slice(b);
+        self.1 += b.len();
+        Ok(())
+      }
+    }
+    let mut buf = Buf([0; 64], 0);
+    std::fmt::Write::write_fmt(&mut buf, format_args!("{:?}", n)).ok()?;
+    let s = std::str::from_utf8(&buf.0[..buf.1]).ok()?;
+    let open = s.rfind('(')?;
+    let v = s[open + 1..].find('v')?;
+    s[open + 1..open + 1 + v].parse().ok()
+  }
+
+  fn slot(&self, i: usize) -> Option<u32> { self.slots[i] }
+
+  /// The slot assignment: slot of every handle, then the freed and not yet reused slots in the order they were
+  /// freed. This is the part of the slotmap's state that decides which key a future `add_node` returns. It is
+  /// hidden from the public API of `DAG` and irrelevant for its behaviour (module documentation, point 1); it is
+  /// nevertheless made part of the state key, so that states that differ only in it are NOT merged and every
+  /// operation on a dead handle is also executed in the situations where the dead handle's slot is occupied by a
+  /// younger node. Empty if the `Debug` form of `Node` is not understood (then those states are merged).
+  fn slot_signature(&self) -> Vec<u8> {
+    if self.slots.iter().any(|s| s.is_none()) { return Vec::new(); }
+    let mut sig: Vec<u8> = self.slots.iter().map(|s| s.unwrap().min(255) as u8).collect();
+    sig.push(self.freed.len() as u8);
+    sig.extend(self.freed.iter().map(|s| (*s).min(255) as u8));
+    sig
+  }
+
+  fn apply(&mut self, op: Op, marker: u16) -> Res {
+    match op {
+      Op::AddNode => {
+        let idx = self.handles.len() as u8;
+        let n = self.dag.add_node(idx);
+        if self.handles.contains(&n) { self.handle_collision = true; }
+        let slot = Self::parse_slot(&n);
+        if let Some(s) = slot { self.freed.retain(|f| *f != s); }
+        self.slots.push(slot);
+        self.handles.push(n);
+        Res::Added(idx)
+      }
+      Op::AddEdge(s, d) => {
+        let (s, d) = (self.handles[s as usize], self.handles[d as usize]);
+        Res::Edge(match self.dag.add_edge(s, d, marker) {
+          Ok(b) => Ok(b),
+          Err(DagError::NodeMissing) => Err(ErrKind::NodeMissing),
+          Err(DagError::CycleDetected) => Err(ErrKind::CycleDetected),
+        })
+      }
+      Op::RemoveEdge(s, d) => {
+        let (s, d) = (self.handles[s as usize], self.handles[d as usize]);
+        Res::RemovedEdge(self.dag.remove_edge(s, d))
+      }
+      Op::RemoveOut(s) => {
+        let s = self.handles[s as usize];
+        Res::RemovedOut(self.dag.remove_outgoing_edges_of_node(s).map(|v| {
+          let mut v: Vec<(u8, u16)> = v.into_iter().map(|(n, d)| (self.idx(&n), d)).collect();
+          v.sort();
+          v
+        }))
+      }
+      Op::RemoveNode(x) => {
+        let removed = self.dag.remove_node(self.handles[x as usize]);
+        if removed {
+          if let Some(s) = self.slots[x as usize] { self.freed.push(s); }
+        }
+        Res::RemovedNode(removed)
+      }
+    }
+  }
+}
+
+/// Complete observable state of the real DAG, in creation-index terms. Edge data 0 = "no data stored".
+#[derive(Clone, PartialEq, Eq, Debug)]
+pub struct Obs {
+  pub len: usize,
+  /// `contains_node` per handle.
+  pub alive: Vec<bool>,
+  /// Rank reported by `iter_unsorted` per handle (`None` = not listed).
+  pub rank: Vec<Option<u32>>,
+  /// Nodes listed by `iter_unsorted` that are no known handle / handles listed more than once.
+  pub unknown_listed: u32,
+  pub listed_twice: u32,
+  /// `get_outgoing_edge_nodes` in iteration order, each with `get_edge_data`.
+  pub out: Vec<Vec<(u8, u16)>>,
+  /// `get_incoming_edge_nodes` in iteration order, each with `get_edge_data`.
+  pub inc: Vec<Vec<(u8, u16)>>,
+  /// `get_edge_data(i, j)` entries for which `j` is not in the outgoing list of `i`.
+  pub stray: Vec<(u8, u8, u16)>,
+  pub handle_collision: bool,
+}
+
+fn observe(real: &Real) -> Obs {
+  let k = real.handles.len();
+  let dag = &real.dag;
+  let alive: Vec<bool> = real.handles.iter().map(|h| dag.contains_node(h)).collect();
+  let mut rank = vec![None; k];
+  let (mut unknown_listed, mut listed_twice) = (0, 0);
+  for (r, n) in dag.iter_unsorted() {
+    match real.idx(&n) {
+      UNKNOWN => unknown_listed += 1,
+      i => {
+        if rank[i as usize].is_some() { listed_twice += 1; }
+        rank[i as usize] = Some(r);
+      }
+    }
+  }
+  let mut out = Vec::with_capacity(k);
+  let mut inc = Vec::with_capacity(k);
+  for h in &real.handles {
+    out.push(dag.get_outgoing_edge_nodes(h).map(|c| (real.idx(c), dag.get_edge_data(h, c).copied().unwrap_or(0))).collect::<Vec<_>>());
+    inc.push(dag.get_incoming_edge_nodes(h).map(|p| (real.idx(p), dag.get_edge_data(p, h).copied().unwrap_or(0))).collect::<Vec<_>>());
+  }
+  let mut stray = Vec::new();
+  for i in 0..k {
+    for j in 0..k {
+      if let Some(d) = dag.get_edge_data(real.handles[i], real.handles[j]) {
+        if !out[i].iter().any(|c| c.0 as usize == j) { stray.push((i as u8, j as u8, *d)); }
+      }
+    }
+  }
+  Obs { len: dag.len(), alive, rank, unknown_listed, listed_twice, out, inc, stray, handle_collision: real.handle_collision }
+}
+
+impl Obs {
+  fn k(&self) -> usize { self.alive.len() }
+
+  fn to_json(&self) -> Value {
+    let nodes: Vec<Value> = (0..self.k())
+      .map(|i| json!({"handle": i, "alive": self.alive[i], "rank": self.rank[i], "out (child,data)": self.out[i], "in (parent,data)": self.inc[i]}))
+      .collect();
+    json!({"len": self.len, "nodes": nodes, "stray_edge_data": self.stray,
+           "unknown_nodes_listed": self.unknown_listed, "nodes_listed_twice": self.listed_twice})
+  }
+
+  /// First field in which `self` (before) and `other` (after) differ.
+  fn first_difference(&self, other: &Obs) -> Option<String> {
+    if self.k() != other.k() { return Some(format!("number of handles {} -> {}", self.k(), other.k())); }
+    if self.len != other.len { return Some(format!("len() {} -> {}", self.len, other.len)); }
+    for i in 0..self.k() {
+      if self.alive[i] != other.alive[i] { return Some(format!("contains_node({}) {} -> {}", i, self.alive[i], other.alive[i])); }
+      if self.rank[i] != other.rank[i] { return Some(format!("rank of node {} {:?} -> {:?}", i, self.rank[i], other.rank[i])); }
+      if self.out[i] != other.out[i] { return Some(format!("outgoing (child,data) list of node {} {:?} -> {:?}", i, self.out[i], other.out[i])); }
+      if self.inc[i] != other.inc[i] { return Some(format!("incoming (parent,data) list of node {} {:?} -> {:?}", i, self.inc[i], other.inc[i])); }
+    }
+    if self.stray != other.stray { return Some(format!("edge data without adjacency {:?} -> {:?}", self.stray, other.stray)); }
+    if self.unknown_listed != other.unknown_listed || self.listed_twice != other.listed_twice || self.handle_collision != other.handle_collision {
+      return Some("node listing anomalies changed".to_string());
+    }
+    None
+  }
+}
+
+// ---------------------------------------------------------------------------------------------------------------
+// Canonical state bytes
+// ---------------------------------------------------------------------------------------------------------------
+
+/// Renumbers edge-data markers in order of first appearance (0 stays 0 = "no data").
+struct Renumber { seen: Vec<u16> }
+
+impl Renumber {
+  fn get(&mut self, m: u16) -> u8 {
+    if m == 0 { return 0; }
+    let pos = match self.seen.iter().position(|x| *x == m) {
+      Some(p) => p,
+      None => { self.seen.push(m); self.seen.len() - 1 }
+    };
+    if pos >= 254 { engine_error("more than 254 distinct edge markers in one state"); }
+    (pos + 1) as u8
+  }
+}
+
+fn push_rank(b: &mut Vec<u8>, r: Option<u32>) {
+  match r {
+    None => b.push(0),
+    Some(r) if r < 254 => b.push((r + 1) as u8),
+    Some(r) => { b.push(255); b.extend_from_slice(&r.to_le_bytes()); }
+  }
+}
+
+fn sorted_edges_of_obs(obs: &Obs) -> Vec<(u8, u8, u16)> {
+  let mut v = Vec::new();
+  for i in 0..obs.k() { for (c, d) in &obs.out[i] { v.push((i as u8, *c, *d)); } }
+  v.sort();
+  v
+}
+
+/// Does the oracle-relevant projection of the model coincide with that projection of the real dump?
+fn model_determined_by_obs(prop: Prop, obs: &Obs, model: &Model) -> bool {
+  if obs.alive != model.alive { return false; }
+  match prop {
+    Prop::C10 => {
+      let mut m = model.edges.clone();
+      m.sort();
+      m == sorted_edges_of_obs(obs)
+    }
+    Prop::C11 => obs.out == model.out && obs.inc == model.inc && obs.stray.is_empty(),
+  }
+}
+
+/// Canonical bytes of a (real, model) state pair; see the module documentation for why this is exact.
+fn encode_key(prop: Prop, obs: &Obs, model: &Model, slot_sig: &[u8]) -> Box<[u8]> {
+  let k = obs.k();
+  let mut b: Vec<u8> = Vec::with_capacity(24 + 8 * k);
+  let mut ren = Renumber { seen: Vec::new() };
+  b.push(k as u8);
+  b.push(obs.len.min(255) as u8);
+  b.push(obs.unknown_listed.min(255) as u8);
+  b.push(obs.listed_twice.min(255) as u8);
+  b.push(obs.handle_collision as u8);
+  for i in 0..k {
+    b.push(obs.alive[i] as u8);
+    push_rank(&mut b, obs.rank[i]);
+    b.push(obs.out[i].len() as u8);
+    for (c, d) in &obs.out[i] { b.push(*c); b.push(ren.get(*d)); }
+    b.push(obs.inc[i].len() as u8);
+    for (p, d) in &obs.inc[i] { b.push(*p); b.push(ren.get(*d)); }
+  }
+  b.push(obs.stray.len() as u8);
+  for (s, d, m) in &obs.stray { b.push(*s); b.push(*d); b.push(ren.get(*m)); }
+  if model_determined_by_obs(prop, obs, model) {
+    b.push(0);
+  } else {
+    b.push(1);
+    b.push(model.k() as u8);
+    for a in &model.alive { b.push(*a as u8); }
+    match prop {
+      Prop::C10 => {
+        let mut m = model.edges.clone();
+        m.sort();
+        b.push(m.len() as u8);
+        for (s, d, x) in m { b.push(s); b.push(d); b.push(ren.get(x)); }
+      }
+      Prop::C11 => {
+        for i in 0..model.k() {
+          b.push(model.out[i].len() as u8);
+          for (c, d) in &model.out[i] { b.push(*c); b.push(ren.get(*d)); }
+          b.push(model.inc[i].len() as u8);
+          for (p, d) in &model.inc[i] { b.push(*p); b.push(ren.get(*d)); }
+        }
+      }
+    }
+  }
+  // Slot assignment last, followed by its length, so that it can be stripped again (`strip_slot_signature`).
+  b.extend_from_slice(slot_sig);
+  b.push(slot_sig.len() as u8);
+  b.into_boxed_slice()
+}
+
+/// The key without the slot assignment: the observable state (and model part) proper.
+fn strip_slot_signature(key: &[u8]) -> &[u8] {
+  let n = *key.last().unwrap() as usize;
+  &key[..key.len() - 1 - n]
+}
+
+/// Closed-form count of the observable states with at most `a` handles, for cross-checking the state count of a
+/// search that reached its fixed point. A state with k handles picks its alive subset freely; m alive nodes have m!
+/// rank assignments, each admitting every subset of the m(m-1)/2 rank-increasing edges; what remains is the number
+/// of possible orders of the adjacency lists of such an edge set:
+/// * `independent == false`: all outgoing and incoming lists are induced by ONE insertion sequence of the present
+///   edges (what a DAG that appends an edge to both lists at its insertion, and never reorders, can reach);
+/// * `independent == true`: every list is ordered independently, prod(outdeg!) * prod(indeg!) (reachable only if
+///   lists can be reordered separately, as the re-insertion defect of `add_edge` allows for the outgoing lists).
+/// `None` if the enumeration would be too large (more than 4 alive nodes in the first form).
+fn closed_form_states(a: usize, independent: bool) -> Option<u64> {
+  fn fact(n: u64) -> u64 { (1..=n).product() }
+  fn choose(n: u64, k: u64) -> u64 { fact(n) / (fact(k) * fact(n - k)) }
+  fn permute(rest: &mut Vec<(usize, usize)>, taken: &mut Vec<(usize, usize)>, m: usize, seen: &mut std::collections::HashSet<Vec<u8>>) {
+    if rest.is_empty() {
+      // Projection of the insertion sequence `taken` onto the per-node lists.
+      let mut proj = Vec::new();
+      for x in 0..m {
+        proj.extend(taken.iter().filter(|e| e.0 == x).map(|e| e.1 as u8));
+        proj.push(255);
+        proj.extend(taken.iter().filter(|e| e.1 == x).map(|e| e.0 as u8));
+        proj.push(255);
+      }
+      seen.insert(proj);
+      return;
+    }
+    for i in 0..rest.len() {
+      let e = rest.remove(i);
+      taken.push(e);
+      permute(rest, taken, m, seen);
+      taken.pop();
+      rest.insert(i, e);
+    }
+  }
+  if !independent && a > 4 { return None; }
+  let f = |m: usize| -> u64 {
+    let edges: Vec<(usize, usize)> = (0..m).flat_map(|i| (i + 1..m).map(move |j| (i, j))).collect();
+    let mut total = 0u64;
+    for mask in 0u32..(1u32 << edges.len()) {
+      let mut present: Vec<(usize, usize)> = edges.iter().enumerate().filter(|(b, _)| mask >> b & 1 == 1).map(|(_, e)| *e).collect();
+      if independent {
+        let (mut o, mut i) = (vec![0u64; m], vec![0u64; m]);
+        for (s, d) in &present { o[*s] += 1; i[*d] += 1; }
+        total += o.iter().chain(i.iter()).map(|x| fact(*x)).product::<u64>();
+      } else {
+        let mut seen = std::collections::HashSet::new();
+        permute(&mut present, &mut Vec::new(), m, &mut seen);
+        total += seen.len() as u64;
+      }
+    }
+    total * fact(m as u64)
+  };
+  Some((0..=a).map(|k| (0..=k).map(|m| choose(k as u64, m as u64) * f(m)).sum::<u64>()).sum())
+}
+
+// ---------------------------------------------------------------------------------------------------------------
+// Oracles
+// ---------------------------------------------------------------------------------------------------------------
+
+/// A failed oracle.
+#[derive(Clone, Debug)]
+pub struct Fail {
+  pub oracle: String,
+  pub what: String,
+  pub expected: Value,
+  pub observed: Value,
+}
+
+fn fail(oracle: &str, what: String, expected: Value, observed: Value) -> Fail {
+  Fail { oracle: oracle.to_string(), what, expected, observed }
+}
+
+fn panic_text(p: Box<dyn std::any::Any + Send>) -> String {
+  if let Some(s) = p.downcast_ref::<&str>() { s.to_string() }
+  else if let Some(s) = p.downcast_ref::<String>() { s.clone() }
+  else { "non-string panic payload".to_string() }
+}
+
+/// Counters of one expansion worker / one search.
+#[derive(Clone, Debug, Default)]
+pub struct Stats {
+  pub transitions: u64,
+  pub queries: u64,
+  pub replayed_ops: u64,
+  pub slot_reuse: u64,
+  pub outcomes: BTreeMap<&'static str, u64>,
+}
+
+impl Stats {
+  fn absorb(&mut self, o: &Stats) {
+    self.transitions += o.transitions;
+    self.queries += o.queries;
+    self.replayed_ops += o.replayed_ops;
+    self.slot_reuse += o.slot_reuse;
+    for (k, v) in &o.outcomes { *self.outcomes.entry(k).or_insert(0) += v; }
+  }
+}
+
+/// (operation kind, result kind) label of an executed transition; `pre` is the model state before the operation.
+fn outcome_label(op: Op, res: &Res, pre: &Model) -> &'static str {
+  match (op, res) {
+    (Op::AddNode, _) => "add_node -> handle",
+    (Op::AddEdge(_, _), Res::Edge(Ok(true))) => "add_edge -> Ok(true)",
+    (Op::AddEdge(_, _), Res::Edge(Ok(false))) => "add_edge -> Ok(false) [re-insertion]",
+    (Op::AddEdge(_, _), Res::Edge(Err(ErrKind::NodeMissing))) => "add_edge -> Err(NodeMissing)",
+    (Op::AddEdge(s, d), Res::Edge(Err(ErrKind::CycleDetected))) if s == d => "add_edge -> Err(CycleDetected) [self loop]",
+    (Op::AddEdge(_, _), Res::Edge(Err(ErrKind::CycleDetected))) => "add_edge -> Err(CycleDetected) [path back]",
+    (Op::RemoveEdge(_, _), Res::RemovedEdge(Some(_))) => "remove_edge -> Some(data)",
+    (Op::RemoveEdge(s, d), Res::RemovedEdge(None)) if !pre.is_alive(s) || !pre.is_alive(d) => "remove_edge -> None [dead handle]",
+    (Op::RemoveEdge(_, _), Res::RemovedEdge(None)) => "remove_edge -> None [no such edge]",
+    (Op::RemoveOut(_), Res::RemovedOut(Some(_))) => "remove_outgoing_edges_of_node -> Some(pairs)",
+    (Op::RemoveOut(s), Res::RemovedOut(None)) if !pre.is_alive(s) => "remove_outgoing_edges_of_node -> None [dead handle]",
+    (Op::RemoveOut(_), Res::RemovedOut(None)) => "remove_outgoing_edges_of_node -> None [no outgoing edges]",
+    (Op::RemoveNode(_), Res::RemovedNode(true)) => "remove_node -> true",
+    (Op::RemoveNode(_), Res::RemovedNode(false)) => "remove_node -> false [dead handle]",
+    _ => "operation/result kind mismatch",
+  }
+}
+
+/// C10: ranks are a bijection onto 1..n, every edge goes up in rank, the graph is acyclic.
+fn c10_invariants(model: &Model, obs: &Obs, q: &mut u64) -> Result<(), Fail> {
+  let k = obs.k();
+  *q += 1;
+  if obs.handle_collision {
+    return Err(fail("C10/dead-handle-revived", "add_node returned a handle equal to an earlier handle".into(), json!("fresh handle"), obs.to_json()));
+  }
+  for i in 0..k {
+    *q += 1;
+    if obs.alive[i] != model.alive[i] {
+      return Err(fail("C10/alive", format!("contains_node({}) is {} but the node is {}", i, obs.alive[i], if model.alive[i] { "alive" } else { "removed" }),
+        model.to_json(), obs.to_json()));
+    }
+  }
+  let n = model.n_alive();
+  *q += 1;
+  if obs.len != n {
+    return Err(fail("C10/len", format!("len() is {} but {} nodes are alive", obs.len, n), json!(n), json!(obs.len)));
+  }
+  *q += 1;
+  if obs.unknown_listed > 0 || obs.listed_twice > 0 {
+    return Err(fail("C10/rank-bijection", "iter_unsorted lists an unknown node or a node twice".into(), json!("each alive node once"), obs.to_json()));
+  }
+  let mut taken = vec![false; n + 1];
+  for i in 0..k {
+    *q += 1;
+    match (obs.alive[i], obs.rank[i]) {
+      (false, None) => {}
+      (false, Some(r)) => return Err(fail("C10/rank-bijection", format!("removed node {} is listed by iter_unsorted with rank {}", i, r), json!(null), obs.to_json())),
+      (true, None) => return Err(fail("C10/rank-bijection", format!("alive node {} is not listed by iter_unsorted", i), json!("a rank"), obs.to_json())),
+      (true, Some(r)) => {
+        if r < 1 || r as usize > n {
+          return Err(fail("C10/rank-bijection", format!("rank {} of node {} is outside 1..={}", r, i, n), json!(format!("ranks are a bijection onto 1..={}", n)), obs.to_json()));
+        }
+        if taken[r as usize] {
+          return Err(fail("C10/rank-bijection", format!("rank {} is held by two nodes", r), json!(format!("ranks are a bijection onto 1..={}", n)), obs.to_json()));
+        }
+        taken[r as usize] = true;
+      }
+    }
+  }
+  for (s, d, _) in &model.edges {
+    *q += 1;
+    let (rs, rd) = (obs.rank[*s as usize], obs.rank[*d as usize]);
+    if !(rs.is_some() && rd.is_some() && rs < rd) {
+      return Err(fail("C10/edge-order", format!("edge {}->{} has rank(src)={:?}, rank(dst)={:?}", s, d, rs, rd), json!("rank(src) < rank(dst)"), obs.to_json()));
+    }
+  }
+  // The same through the adjacency reported by the API, plus an explicit cycle search on it.
+  for i in 0..k {
+    for (c, _) in &obs.out[i] {
+      *q += 1;
+      let rc = if *c == UNKNOWN { None } else { obs.rank[*c as usize] };
+      if !(obs.rank[i].is_some() && rc.is_some() && obs.rank[i] < rc) {
+        return Err(fail("C10/edge-order", format!("API edge {}->{} has rank(src)={:?}, rank(dst)={:?}", i, c, obs.rank[i], rc), json!("rank(src) < rank(dst)"), obs.to_json()));
+      }
+    }
+  }
+  *q += 1;
+  let mut colour = vec![0u8; k];
+  fn visit(x: usize, obs: &Obs, colour: &mut Vec<u8>) -> bool {
+    colour[x] = 1;
+    for (c, _) in &obs.out[x] {
+      if *c == UNKNOWN { continue; }
+      let c = *c as usize;
+      if colour[c] == 1 { return true; }
+      if colour[c] == 0 && visit(c, obs, colour) { return true; }
+    }
+    colour[x] = 2;
+    false
+  }
+  for i in 0..k {
+    if colour[i] == 0 && visit(i, obs, &mut colour) {
+      return Err(fail("C10/acyclic", "the outgoing adjacency reported by the API contains a cycle".into(), json!("acyclic"), obs.to_json()));
+    }
+  }
+  Ok(())
+}
+
+/// C11, general form: the complete real state equals the complete model state (edges, order, data, alive set).
+fn c11_state(model: &Model, obs: &Obs, q: &mut u64) -> Result<(), Fail> {
+  let k = obs.k();
+  *q += 1;
+  if obs.handle_collision {
+    return Err(fail("C11/contains_node", "add_node returned a handle equal to an earlier handle".into(), json!("fresh handle"), obs.to_json()));
+  }
+  for i in 0..k {
+    *q += 1;
+    if obs.alive[i] != model.alive[i] {
+      return Err(fail("C11/contains_node", format!("contains_node({}) is {} but the node is {}", i, obs.alive[i], if model.alive[i] { "alive" } else { "removed" }),
+        model.to_json(), obs.to_json()));
+    }
+  }
+  *q += 1;
+  if obs.len != model.n_alive() {
+    return Err(fail("C11/len", format!("len() is {} but {} nodes are alive", obs.len, model.n_alive()), json!(model.n_alive()), json!(obs.len)));
+  }
+  *q += 1;
+  if obs.unknown_listed > 0 || obs.listed_twice > 0 {
+    return Err(fail("C11/node-set", "iter_unsorted lists an unknown node or a node twice".into(), model.to_json(), obs.to_json()));
+  }
+  for (dir, real_lists, model_lists) in [("outgoing", &obs.out, &model.out), ("incoming", &obs.inc, &model.inc)] {
+    for i in 0..k {
+      *q += 1;
+      let (r, m) = (&real_lists[i], &model_lists[i]);
+      if r == m { continue; }
+      let rn: Vec<u8> = r.iter().map(|x| x.0).collect();
+      let mn: Vec<u8> = m.iter().map(|x| x.0).collect();
+      let (mut rs, mut ms) = (rn.clone(), mn.clone());
+      rs.sort();
+      ms.sort();
+      let (kind, text) = if rs != ms {
+        ("edges", format!("{} edges of node {} are {:?} but the true edge set gives {:?}", dir, i, rn, mn))
+      } else if rn != mn {
+        ("order", format!("{} adjacency of node {} iterates as {:?} but the order of first insertion is {:?}", dir, i, rn, mn))
+      } else {
+        ("data", format!("{} edges of node {} carry (node,data) {:?} but the data given at insertion is {:?}", dir, i, r, m))
+      };
+      return Err(fail(&format!("C11/{}-{}", dir, kind), text, model.to_json(), obs.to_json()));
+    }
+  }
+  *q += 1;
+  if !obs.stray.is_empty() {
+    return Err(fail("C11/edge-data", format!("get_edge_data answers for absent edges (src,dst,data): {:?}", obs.stray), model.to_json(), obs.to_json()));
+  }
+  Ok(())
+}
+
+/// C11: every query of the public API, for all handles and all ordered pairs of handles ever created.
+fn c11_queries(real: &Real, model: &Model, obs: &Obs, q: &mut u64) -> Result<(), Fail> {
+  let dag = &real.dag;
+  let h = &real.handles;
+  let k = h.len();
+  let n = model.n_alive();
+  let idxs = |v: Vec<&Node>| -> Vec<u8> { v.into_iter().map(|x| real.idx(x)).collect() };
+
+  *q += 2;
+  if dag.len() != n { return Err(fail("C11/len", format!("len() = {}", dag.len()), json!(n), json!(dag.len()))); }
+  if dag.is_empty() != (n == 0) { return Err(fail("C11/is_empty", format!("is_empty() = {} with {} alive nodes", dag.is_empty(), n), json!(n == 0), json!(dag.is_empty()))); }
+  for i in 0..k {
+    *q += 2;
+    if dag.contains_node(h[i]) != model.alive[i] {
+      return Err(fail("C11/contains_node", format!("contains_node({}) = {}", i, !model.alive[i]), json!(model.alive[i]), json!(!model.alive[i])));
+    }
+    let exp = if model.alive[i] { Some(i as u8) } else { None };
+    let got = dag.get_node_data(h[i]).copied();
+    if got != exp { return Err(fail("C11/get_node_data", format!("get_node_data({}) = {:?}", i, got), json!(exp), json!(got))); }
+  }
+
+  let reach: Vec<Vec<bool>> = (0..k).map(|i| if model.alive[i] { model.reachable(i as u8) } else { vec![false; k] }).collect();
+  let reaches = |i: usize, j: usize| model.alive[i] && model.alive[j] && reach[i][j];
+
+  for i in 0..k {
+    for j in 0..k {
+      *q += 2;
+      let exp_data = model.edge_data(i as u8, j as u8);
+      let got = dag.contains_edge(h[i], h[j]);
+      if got != exp_data.is_some() {
+        return Err(fail("C11/contains_edge", format!("contains_edge({},{}) = {}", i, j, got), json!(exp_data.is_some()), json!(got)));
+      }
+      let got = dag.get_edge_data(h[i], h[j]).copied();
+      if got != exp_data {
+        return Err(fail("C11/get_edge_data", format!("get_edge_data({},{}) = {:?}", i, j, got), json!(exp_data), json!(got)));
+      }
+      // Transitive reachability: twice in a row, then an unrelated query with a different source, then again.
+      let exp = reaches(i, j);
+      let r1 = dag.contains_transitive_edge(h[i], h[j]);
+      let r2 = dag.contains_transitive_edge(h[i], h[j]);
+      *q += 2;
+      if r1 != exp || r2 != exp {
+        return Err(fail("C11/contains_transitive_edge", format!("contains_transitive_edge({},{}) answered {} then {} (called twice in a row)", i, j, r1, r2), json!(exp), json!([r1, r2])));
+      }
+      if k > 1 {
+        let i2 = (i + 1) % k;
+        let exp2 = reaches(i2, j);
+        let u = dag.contains_transitive_edge(h[i2], h[j]);
+        let r3 = dag.contains_transitive_edge(h[i], h[j]);
+        *q += 2;
+        if u != exp2 {
+          return Err(fail("C11/contains_transitive_edge", format!("contains_transitive_edge({},{}) = {} (asked right after the query for ({},{}))", i2, j, u, i, j), json!(exp2), json!(u)));
+        }
+        if r3 != exp {
+          return Err(fail("C11/contains_transitive_edge", format!("contains_transitive_edge({},{}) = {} when asked again after the query for ({},{})", i, j, r3, i2, j), json!(exp), json!(r3)));
+        }
+      }
+    }
+  }
+
+  for i in 0..k {
+    // The four outgoing and four incoming accessors against the model lists, in order.
+    let m_out = &model.out[i];
+    let m_inc = &model.inc[i];
+    let m_out_nodes: Vec<u8> = m_out.iter().map(|x| x.0).collect();
+    let m_out_data: Vec<u16> = m_out.iter().map(|x| x.1).collect();
+    let m_inc_nodes: Vec<u8> = m_inc.iter().map(|x| x.0).collect();
+    let m_inc_data: Vec<u16> = m_inc.iter().map(|x| x.1).collect();
+
+    *q += 8;
+    let got: Vec<(u8, u16)> = dag.get_outgoing_edges(h[i]).map(|(c, d)| (real.idx(c), *d)).collect();
+    if &got != m_out { return Err(fail("C11/get_outgoing_edges", format!("get_outgoing_edges({}) = {:?}", i, got), json!(m_out), json!(got))); }
+    let got = idxs(dag.get_outgoing_edge_nodes(h[i]).collect());
+    if got != m_out_nodes { return Err(fail("C11/get_outgoing_edge_nodes", format!("get_outgoing_edge_nodes({}) = {:?}", i, got), json!(m_out_nodes), json!(got))); }
+    let got: Vec<u16> = dag.get_outgoing_edge_data(h[i]).copied().collect();
+    if got != m_out_data { return Err(fail("C11/get_outgoing_edge_data", format!("get_outgoing_edge_data({}) = {:?}", i, got), json!(m_out_data), json!(got))); }
+    let got: Vec<u8> = dag.get_outgoing_edge_node_data(h[i]).copied().collect();
+    if got != m_out_nodes { return Err(fail("C11/get_outgoing_edge_node_data", format!("get_outgoing_edge_node_data({}) = {:?}", i, got), json!(m_out_nodes), json!(got))); }
+
+    let got: Vec<(u8, u16)> = dag.get_incoming_edges(h[i]).map(|(p, d)| (real.idx(p), *d)).collect();
+    if &got != m_inc { return Err(fail("C11/get_incoming_edges", format!("get_incoming_edges({}) = {:?}", i, got), json!(m_inc), json!(got))); }
+    let got = idxs(dag.get_incoming_edge_nodes(h[i]).collect());
+    if got != m_inc_nodes { return Err(fail("C11/get_incoming_edge_nodes", format!("get_incoming_edge_nodes({}) = {:?}", i, got), json!(m_inc_nodes), json!(got))); }
+    let got: Vec<u16> = dag.get_incoming_edge_data(h[i]).copied().collect();
+    if got != m_inc_data { return Err(fail("C11/get_incoming_edge_data", format!("get_incoming_edge_data({}) = {:?}", i, got), json!(m_inc_data), json!(got))); }
+    let got: Vec<u8> = dag.get_incoming_edge_node_data(h[i]).copied().collect();
+    if got != m_inc_nodes { return Err(fail("C11/get_incoming_edge_node_data", format!("get_incoming_edge_node_data({}) = {:?}", i, got), json!(m_inc_nodes), json!(got))); }
+
+    // Mutual symmetry of the real lists (with data).
+    for (c, d) in dag.get_outgoing_edges(h[i]) {
+      *q += 1;
+      if !dag.get_incoming_edges(c).any(|(p, pd)| *p == h[i] && pd == d) {
+        return Err(fail("C11/adjacency-symmetry", format!("{} lists child {} but that child does not list {} as parent with the same data", i, real.idx(c), i), json!("symmetric"), obs.to_json()));
+      }
+    }
+    for (p, d) in dag.get_incoming_edges(h[i]) {
+      *q += 1;
+      if !dag.get_outgoing_edges(p).any(|(c, cd)| *c == h[i] && cd == d) {
+        return Err(fail("C11/adjacency-symmetry", format!("{} lists parent {} but that parent does not list {} as child with the same data", i, real.idx(p), i), json!("symmetric"), obs.to_json()));
+      }
+    }
+
+    // Descendant iterators.
+    let mut exp_desc: Vec<u8> = (0..k).filter(|j| reaches(i, *j)).map(|j| j as u8).collect();
+    exp_desc.sort();
+    *q += 1;
+    match dag.descendants_unsorted(h[i]) {
+      Err(e) => {
+        if model.alive[i] || e != DagError::NodeMissing {
+          return Err(fail("C11/descendants_unsorted", format!("descendants_unsorted({}) = Err({:?})", i, e), json!(if model.alive[i] { "Ok" } else { "Err(NodeMissing)" }), json!(format!("Err({:?})", e))));
+        }
+      }
+      Ok(it) => {
+        let items: Vec<(u32, u8)> = it.map(|(r, n)| (r, real.idx(&n))).collect();
+        if !model.alive[i] {
+          return Err(fail("C11/descendants_unsorted", format!("descendants_unsorted({}) = Ok on a removed node", i), json!("Err(NodeMissing)"), json!(items)));
+        }
+        let mut got: Vec<u8> = items.iter().map(|x| x.1).collect();
+        got.sort();
+        *q += 1;
+        if got != exp_desc {
+          return Err(fail("C11/descendants_unsorted", format!("descendants_unsorted({}) yields nodes {:?} (sorted; each must occur once)", i, got), json!(exp_desc), json!(items)));
+        }
+        for (r, x) in &items {
+          *q += 1;
+          if obs.rank[*x as usize] != Some(*r) {
+            return Err(fail("C11/descendants_unsorted", format!("descendants_unsorted({}) reports rank {} for node {} whose rank is {:?}", i, r, x, obs.rank[*x as usize]), json!(obs.rank[*x as usize]), json!(r)));
+          }
+        }
+      }
+    }
+    *q += 1;
+    match dag.descendants(h[i]) {
+      Err(e) => {
+        if model.alive[i] || e != DagError::NodeMissing {
+          return Err(fail("C11/descendants", format!("descendants({}) = Err({:?})", i, e), json!(if model.alive[i] { "Ok" } else { "Err(NodeMissing)" }), json!(format!("Err({:?})", e))));
+        }
+      }
+      Ok(it) => {
+        let items: Vec<u8> = it.map(|n| real.idx(&n)).collect();
+        if !model.alive[i] {
+          return Err(fail("C11/descendants", format!("descendants({}) = Ok on a removed node", i), json!("Err(NodeMissing)"), json!(items)));
+        }
+        let mut got = items.clone();
+        got.sort();
+        *q += 2;
+        if got != exp_desc {
+          return Err(fail("C11/descendants", format!("descendants({}) yields nodes {:?} (sorted; each must occur once)", i, got), json!(exp_desc), json!(items)));
+        }
+        let ranks: Vec<Option<u32>> = items.iter().map(|x| obs.rank[*x as usize]).collect();
+        if !ranks.windows(2).all(|w| w[0].is_some() && w[0] < w[1]) {
+          return Err(fail("C11/descendants", format!("descendants({}) yields {:?} with ranks {:?}, not strictly ascending", i, items, ranks), json!("strictly ascending rank"), json!(ranks)));
+        }
+      }
+    }
+  }
+
+  // Topological comparison, only among alive handles (`topo_cmp` is not defined on removed nodes).
+  for i in 0..k {
+    for j in 0..k {
+      if !(model.alive[i] && model.alive[j] && obs.alive[i] && obs.alive[j]) { continue; }
+      *q += 1;
+      let got = dag.topo_cmp(h[i], h[j]);
+      let (ri, rj) = (obs.rank[i], obs.rank[j]);
+      if ri.is_none() || rj.is_none() || got != ri.cmp(&rj) {
+        return Err(fail("C11/topo_cmp", format!("topo_cmp({},{}) = {:?} with ranks {:?}, {:?}", i, j, got, ri, rj), json!(format!("{:?}", ri.cmp(&rj))), json!(format!("{:?}", got))));
+      }
+      if model.edge_data(i as u8, j as u8).is_some() {
+        *q += 1;
+        if got != std::cmp::Ordering::Less {
+          return Err(fail("C11/topo_cmp", format!("topo_cmp({},{}) = {:?} although {}->{} is an edge", i, j, got, i, j), json!("Less"), json!(format!("{:?}", got))));
+        }
+      }
+    }
+  }
+  Ok(())
+}
+
+/// Executes one operation on the real DAG and on (a copy of) the model and evaluates the oracles of `prop`.
+/// Returns the observation and model after the operation, or the first failed oracle.
+fn step(prop: Prop, real: &mut Real, model: &Model, obs_pre: &Obs, op: Op, marker: u16, stats: &mut Stats) -> Result<(Obs, Model), Fail> {
+  let pid = prop.id();
+  let mut m2 = model.clone();
+  let m_res = m2.apply(op, marker);
+  stats.transitions += 1;
+
+  let r_res = match catch_unwind(AssertUnwindSafe(|| real.apply(op, marker))) {
+    Ok(r) => r,
+    Err(p) => return Err(fail(&format!("{}/panic", pid), format!("{} panicked: {}", op.render(), panic_text(p)), res_json(&m_res), json!("panic"))),
+  };
+  *stats.outcomes.entry(outcome_label(op, &r_res, model)).or_insert(0) += 1;
+  if op == Op::AddNode {
+    let k = real.handles.len();
+    if let Some(s) = real.slot(k - 1) {
+      if (0..k - 1).any(|i| real.slot(i) == Some(s)) {
+        stats.slot_reuse += 1;
+        *stats.outcomes.entry("add_node -> handle [slot of a removed node reused]").or_insert(0) += 1;
+      }
+    }
+  }
+  if let (Op::AddEdge(s, d), Res::Edge(Err(ErrKind::NodeMissing))) = (op, &r_res) {
+    // Vacuity marker: a dead handle whose slot is occupied by a younger, alive node was rejected.
+    let reused = |x: u8| !model.is_alive(x) && (0..real.handles.len()).any(|o| o != x as usize && model.is_alive(o as u8) && real.slot(o).is_some() && real.slot(o) == real.slot(x as usize));
+    if reused(s) || reused(d) {
+      *stats.outcomes.entry("add_edge -> Err(NodeMissing) [dead handle whose slot was reused]").or_insert(0) += 1;
+    }
+  }
+
+  let obs = match catch_unwind(AssertUnwindSafe(|| observe(real))) {
+    Ok(o) => o,
+    Err(p) => return Err(fail(&format!("{}/panic", pid), format!("observing the graph after {} panicked: {}", op.render(), panic_text(p)), json!("no panic"), json!("panic"))),
+  };
+
+  match prop {
+    Prop::C10 => {
+      stats.queries += 1;
+      if r_res.without_data() != m_res.without_data() {
+        let name = match op {
+          Op::AddNode => "C10/add_node-result",
+          Op::AddEdge(_, _) => "C10/add_edge-result",
+          Op::RemoveEdge(_, _) => "C10/remove_edge-result",
+          Op::RemoveOut(_) => "C10/remove_outgoing_edges_of_node-result",
+          Op::RemoveNode(_) => "C10/remove_node-result",
+        };
+        return Err(fail(name, format!("{} returned {} but the edge set demands {}", op.render(), res_json(&r_res), res_json(&m_res)), res_json(&m_res), res_json(&r_res)));
+      }
+      if let Res::Edge(Err(_)) = m_res {
+        stats.queries += 1;
+        if let Some(d) = obs_pre.first_difference(&obs) {
+          return Err(fail("C10/rejected-insertion-changed-graph", format!("{} was rejected ({}) but changed the graph: {}", op.render(), res_json(&r_res), d), obs_pre.to_json(), obs.to_json()));
+        }
+      }
+      c10_invariants(&m2, &obs, &mut stats.queries)?;
+    }
+    Prop::C11 => {
+      c11_state(&m2, &obs, &mut stats.queries).map_err(|mut f| {
+        f.what = format!("after {}: {}", op.render(), f.what);
+        f
+      })?;
+      if matches!(op, Op::RemoveEdge(_, _) | Op::RemoveOut(_) | Op::RemoveNode(_)) {
+        // "Removes exactly those edges and their data": the returned data / (child, data) pairs / flag.
+        stats.queries += 1;
+        if r_res != m_res {
+          return Err(fail("C11/removal-result", format!("{} returned {} but removed is {}", op.render(), res_json(&r_res), res_json(&m_res)), res_json(&m_res), res_json(&r_res)));
+        }
+      }
+      if let Res::Edge(Ok(false)) = m_res {
+        stats.queries += 1;
+        if let Some(d) = obs_pre.first_difference(&obs) {
+          return Err(fail("C11/reinsertion-changed-state", format!("{} re-inserted an existing edge but changed the observable state: {}", op.render(), d), obs_pre.to_json(), obs.to_json()));
+        }
+      }
+      let mut q = 0u64;
+      let res = catch_unwind(AssertUnwindSafe(|| c11_queries(real, &m2, &obs, &mut q)));
+      stats.queries += q;
+      match res {
+        Ok(r) => r.map_err(|mut f| {
+          f.what = format!("after {}: {}", op.render(), f.what);
+          f
+        })?,
+        Err(p) => return Err(fail("C11/panic", format!("a query after {} panicked: {}", op.render(), panic_text(p)), json!("no panic"), json!("panic"))),
+      }
+    }
+  }
+  Ok((obs, m2))
+}
+
+// ---------------------------------------------------------------------------------------------------------------
+// Breadth-first search
+// ---------------------------------------------------------------------------------------------------------------
+
+#[derive(Clone, Debug)]
+pub struct Bounds {
+  pub nodes_ever_created: usize,
+  pub state_cap: usize,
+  pub wall_cap_s: f64,
+  pub threads: usize,
+}
+
+#[derive(Debug)]
+pub struct SearchOut {
+  pub bounds: Bounds,
+  pub states: usize,
+  pub stats: Stats,
+  /// Number of states first discovered at each depth (index = depth = length of the shortest path).
+  pub level_sizes: Vec<usize>,
+  pub fixed_point: bool,
+  pub cap_hit: Option<&'static str>,
+  /// All operation sequences of length <= this were executed and checked (modulo exact state merging).
+  pub depth_completely_covered: usize,
+  pub max_depth: usize,
+  /// Kept violations, shortest first: (operation path including the failing operation, failed oracle).
+  pub fails: Vec<(Vec<Op>, Fail)>,
+  pub violating_transitions: u64,
+  pub samples: Vec<Vec<String>>,
+  pub wall_s: f64,
+  /// Distinct states when the (hidden) slot assignment is ignored; computed at a fixed point only.
+  pub states_modulo_slots: Option<usize>,
+  /// Is the slot assignment known (the `Debug` form of `Node` understood) and therefore part of the key?
+  pub slot_signature_in_key: bool,
+}
+
+struct Store {
+  keys: HashMap<Box<[u8]>, u32>,
+  parent: Vec<u32>,
+  via: Vec<Op>,
+}
+
+impl Store {
+  fn path_of(&self, mut id: u32) -> Vec<Op> {
+    let mut p = Vec::new();
+    while id != 0 {
+      p.push(self.via[id as usize]);
+      id = self.parent[id as usize];
+    }
+    p.reverse();
+    p
+  }
+}
+
+struct ChunkOut {
+  succ: Vec<(u32, Op, Box<[u8]>)>,
+  fails: Vec<(u32, Op, Fail)>,
+  n_fails: u64,
+  stats: Stats,
+}
+
+/// Replays `path` on a fresh real DAG. A panic here is an engine error: the path was executed without panic before.
+fn replay_real(path: &[Op], stats: &mut Stats) -> Real {
+  let mut real = Real::new();
+  let r = catch_unwind(AssertUnwindSafe(|| {
+    for (p, op) in path.iter().enumerate() { real.apply(*op, marker_for(p)); }
+  }));
+  if r.is_err() { engine_error(&format!("replaying the recorded path {:?} panicked", render_path(path))); }
+  stats.replayed_ops += path.len() as u64;
+  real
+}
+
+/// Expands one state: every operation of its alphabet, each on a freshly replayed DAG.
+fn expand(prop: Prop, a: usize, store: &Store, id: u32, out: &mut ChunkOut) {
+  const KEEP_PER_CHUNK: usize = 6;
+  let path = store.path_of(id);
+  let mut model = Model::new();
+  for (p, op) in path.iter().enumerate() { model.apply(*op, marker_for(p)); }
+  let marker = marker_for(path.len());
+  for op in alphabet(model.k(), a) {
+    let mut real = replay_real(&path, &mut out.stats);
+    let obs_pre = match catch_unwind(AssertUnwindSafe(|| observe(&real))) {
+      Ok(o) => o,
+      Err(_) => engine_error(&format!("observing the replayed path {:?} panicked", render_path(&path))),
+    };
+    let key_pre = encode_key(prop, &obs_pre, &model, &real.slot_signature());
+    if store.keys.get(&key_pre) != Some(&id) {
+      engine_error(&format!("replaying {:?} does not reproduce the recorded state {}", render_path(&path), id));
+    }
+    match step(prop, &mut real, &model, &obs_pre, op, marker, &mut out.stats) {
+      Ok((obs, m2)) => {
+        let key = encode_key(prop, &obs, &m2, &real.slot_signature());
+        if !store.keys.contains_key(&key) { out.succ.push((id, op, key)); }
+      }
+      Err(f) => {
+        out.n_fails += 1;
+        if out.fails.len() < KEEP_PER_CHUNK { out.fails.push((id, op, f)); }
+      }
+    }
+  }
+}
+
+/// Level-synchronous parallel BFS. Results do not depend on thread scheduling: the frontier is cut into chunks of
+/// fixed size, chunk results are merged in chunk order, and new states get their ids in that order.
+pub fn search(prop: Prop, bounds: &Bounds) -> SearchOut {
+  const CHUNK: usize = 32;
+  const BLOCK: usize = 1 << 16;
+  const KEEP_PER_ORACLE: usize = 2;
+  const KEEP_TOTAL: usize = 5;
+  // Once a violation is known the verdict is fixed; the search goes on for this many further levels (to let
+  // violations of other oracles surface, shortest first) and then stops instead of wading through the possibly huge
+  // state space of a defective implementation.
+  const EXTRA_LEVELS_AFTER_VIOLATION: usize = 2;
+  let mut first_violation_depth: Option<usize> = None;
+  let mut readd_sample: Option<u32> = None; // latest state reached by an add_node that follows a remove_node
+  let start = Instant::now();
+  let a = bounds.nodes_ever_created;
+  let mut store = Store { keys: HashMap::new(), parent: vec![0], via: vec![Op::AddNode] };
+  {
+    let real = Real::new();
+    let key = encode_key(prop, &observe(&real), &Model::new(), &real.slot_signature());
+    store.keys.insert(key, 0);
+  }
+  let mut stats = Stats::default();
+  let mut level_sizes = vec![1usize];
+  let mut frontier: Vec<u32> = vec![0];
+  let mut fails: Vec<(Vec<Op>, Fail)> = Vec::new();
+  let mut violating_transitions = 0u64;
+  let mut cap_hit = None;
+  let mut depth = 0usize; // depth of the states in `frontier`
+  let mut fixed_point = false;
+  let mut depth_completely_covered = 0usize;
+
+  'levels: loop {
+    if frontier.is_empty() { fixed_point = true; break; }
+    if let Some(v) = first_violation_depth {
+      if depth > v + EXTRA_LEVELS_AFTER_VIOLATION { cap_hit = Some("stopped_after_violation"); break; }
+    }
+    let mut next: Vec<u32> = Vec::new();
+    let n_blocks = (frontier.len() + BLOCK - 1) / BLOCK;
+    for (block_no, block) in frontier.chunks(BLOCK).enumerate() {
+      let chunks: Vec<&[u32]> = block.chunks(CHUNK).collect();
+      let cursor = AtomicUsize::new(0);
+      let n_threads = bounds.threads.max(1).min(chunks.len().max(1));
+      let store_ref = &store;
+      let chunks_ref = &chunks;
+      let cursor_ref = &cursor;
+      let mut results: Vec<(usize, ChunkOut)> = std::thread::scope(|s| {
+        let workers: Vec<_> = (0..n_threads)
+          .map(|_| {
+            s.spawn(move || {
+              let mut mine = Vec::new();
+              loop {
+                let c = cursor_ref.fetch_add(1, AtomicOrdering::Relaxed);
+                if c >= chunks_ref.len() { break; }
+                let mut out = ChunkOut { succ: Vec::new(), fails: Vec::new(), n_fails: 0, stats: Stats::default() };
+                for id in chunks_ref[c] { expand(prop, a, store_ref, *id, &mut out); }
+                mine.push((c, out));
+              }
+              mine
+            })
+          })
+          .collect();
+        let mut all = Vec::new();
+        for w in workers {
+          match w.join() {
+            Ok(v) => all.extend(v),
+            Err(p) => engine_error(&format!("search worker panicked: {}", panic_text(p))),
+          }
+        }
+        all
+      });
+      results.sort_by_key(|r| r.0);
+      for (_, out) in results {
+        stats.absorb(&out.stats);
+        violating_transitions += out.n_fails;
+        for (id, op, f) in out.fails {
+          if fails.len() < KEEP_TOTAL && fails.iter().filter(|x| x.1.oracle == f.oracle).count() < KEEP_PER_ORACLE {
+            let mut path = store.path_of(id);
+            path.push(op);
+            fails.push((path, f));
+          }
+        }
+        for (parent, op, key) in out.succ {
+          if store.keys.contains_key(&key) { continue; }
+          let id = store.parent.len() as u32;
+          if op == Op::AddNode && store.path_of(parent).iter().any(|o| matches!(o, Op::RemoveNode(_))) { readd_sample = Some(id); }
+          store.keys.insert(key, id);
+          store.parent.push(parent);
+          store.via.push(op);
+          next.push(id);
+        }
+      }
+      if store.parent.len() >= bounds.state_cap { cap_hit = Some("state_cap"); }
+      else if start.elapsed().as_secs_f64() > bounds.wall_cap_s { cap_hit = Some("wall_cap"); }
+      if cap_hit.is_some() {
+        // Was this the last block of the level, with nothing new? Then the fixed point was reached after all.
+        let last_block = block_no + 1 == n_blocks;
+        if !next.is_empty() { level_sizes.push(next.len()); }
+        if last_block {
+          depth_completely_covered = depth + 1;
+          if next.is_empty() { fixed_point = true; cap_hit = None; }
+        }
+        break 'levels;
+      }
+    }
+    depth_completely_covered = depth + 1;
+    if violating_transitions > 0 && first_violation_depth.is_none() { first_violation_depth = Some(depth); }
+    if next.is_empty() { fixed_point = true; break; }
+    level_sizes.push(next.len());
+    depth += 1;
+    frontier = next;
+  }
+
+  let states = store.parent.len();
+  let max_depth = level_sizes.len() - 1;
+  // A few of the explored paths, at fixed positions of the (deterministic) discovery order.
+  let mut sample_ids: Vec<u32> = vec![states as u32 - 1, (states / 2) as u32, (states / 4) as u32, (3 * (states / 4)) as u32, (states / 10) as u32];
+  sample_ids.extend(readd_sample);
+  sample_ids.dedup();
+  let samples = sample_ids.into_iter().map(|id| render_path(&store.path_of(id))).filter(|p| !p.is_empty()).collect();
+  let states_modulo_slots = if fixed_point {
+    Some(store.keys.keys().map(|k| strip_slot_signature(k)).collect::<std::collections::HashSet<&[u8]>>().len())
+  } else {
+    None
+  };
+  let slot_signature_in_key = store.keys.keys().all(|k| *k.last().unwrap() != 0);
+  SearchOut {
+    bounds: bounds.clone(), states, stats, level_sizes, fixed_point, cap_hit, depth_completely_covered, max_depth,
+    fails, violating_transitions, samples, wall_s: start.elapsed().as_secs_f64(), states_modulo_slots, slot_signature_in_key,
+  }
+}
+
+// ---------------------------------------------------------------------------------------------------------------
+// Entry points
+// ---------------------------------------------------------------------------------------------------------------
+
+const RULE: &str = "breadth-first over operation sequences on the real pie_graph::DAG<u8,u16> in lock-step with a naive Vec model; \
+alphabet per state: add_node (while fewer than `nodes_ever_created` handles exist), and for all handles i,j ever created including removed ones: \
+add_edge(i,j,fresh marker), remove_edge(i,j), remove_outgoing_edges_of_node(i), remove_node(i); every transition replays the state's shortest \
+operation path on a fresh DAG, executes the operation, and evaluates the property's oracles; states = complete observable API state \
+(alive, rank, ordered outgoing/incoming adjacency with data, len, stray edge data) by creation index with edge markers renumbered by first \
+appearance, plus the oracle-relevant model state where the dump does not determine it, plus the slotmap slot assignment (slot per handle, freed slots in order) so that dead handles whose slot was reused are exercised as such; merged on exact equality of these bytes; level-synchronous over 16 threads with deterministic merge, to fixed point or cap; after the first level with a violation the search runs two more levels and stops";
+
+fn make_violation(prop: Prop, path: &[Op], f: &Fail, a: Option<usize>) -> Violation {
+  Violation {
+    property: prop.id().to_string(),
+    oracle: f.oracle.clone(),
+    key: String::new(),
+    what: format!("{} [after {} operations: {}]", f.what, path.len(), render_path(path).join("; ")),
+    replay: json!({
+      "ops": render_path(path),
+      "expected": f.expected,
+      "observed": f.observed,
+      "marker_rule": "the add_edge at 0-based position p of `ops` carries edge data p+1; node data = creation index",
+      "nodes_ever_created_bound": a,
+    }),
+  }
+}
+
+fn quiet_panics<T>(f: impl FnOnce() -> T) -> T {
+  let old = std::panic::take_hook();
+  std::panic::set_hook(Box::new(|_| {}));
+  let r = f();
+  std::panic::set_hook(old);
+  r
+}
+
+fn phase_json(o: &SearchOut) -> Value {
+  json!({
+    "nodes_ever_created": o.bounds.nodes_ever_created,
+    "states": o.states,
+    "states_modulo_slot_assignment": o.states_modulo_slots,
+    "closed_form_states_lists_from_one_insertion_sequence": closed_form_states(o.bounds.nodes_ever_created, false),
+    "closed_form_states_lists_ordered_independently": closed_form_states(o.bounds.nodes_ever_created, true),
+    "states_match_closed_form": match o.states_modulo_slots.map(|n| n as u64) {
+      None => json!(null),
+      Some(n) if Some(n) == closed_form_states(o.bounds.nodes_ever_created, false) => json!("lists_from_one_insertion_sequence (every observable state of a correct DAG was reached)"),
+      Some(n) if Some(n) == closed_form_states(o.bounds.nodes_ever_created, true) => json!("lists_ordered_independently (adjacency lists can be reordered separately)"),
+      Some(_) => json!("neither"),
+    },
+    "slot_assignment_in_state_key": o.slot_signature_in_key,
+    "transitions": o.stats.transitions,
+    "queries_checked": o.stats.queries,
+    "fixed_point_reached": o.fixed_point,
+    "cap_hit": o.cap_hit,
+    "max_depth": o.max_depth,
+    "depth_completely_covered": if o.fixed_point { json!("all (fixed point)") } else { json!(o.depth_completely_covered) },
+    "states_first_seen_per_depth": o.level_sizes,
+    "violating_transitions": o.violating_transitions,
+    "wall_s": (o.wall_s * 10.0).round() / 10.0,
+  })
+}
+
+pub fn run(args: &Args) -> i32 {
+  let prop = match args.property.as_str() {
+    "C10" => Prop::C10,
+    "C11" => Prop::C11,
+    other => engine_error(&format!("engine dag does not serve property {}", other)),
+  };
+  if let Some(file) = &args.replay { return run_replay(args, prop, file); }
+
+  let mut rep = Report::new(args);
+  let threads = std::thread::available_parallelism().map(|n| n.get()).unwrap_or(16);
+  let (state_cap, wall_cap_s) = match args.tier { Tier::Quick => (1_000_000usize, 120.0f64), Tier::Thorough => (3_000_000usize, 900.0f64) };
+  // Quick: A = 4 to fixed point. Thorough: the same, then A = 5 under the state / wall cap.
+  let plan: Vec<usize> = match args.tier { Tier::Quick => vec![4], Tier::Thorough => vec![4, 5] };
+  let mut outs: Vec<SearchOut> = Vec::new();
+  for a in plan {
+    let b = Bounds { nodes_ever_created: a, state_cap, wall_cap_s: (wall_cap_s - rep.elapsed()).max(1.0), threads };
+    outs.push(quiet_panics(|| search(prop, &b)));
+  }
+
+  let mut total = Stats::default();
+  for o in &outs { total.absorb(&o.stats); }
+  let states: usize = outs.iter().map(|o| o.states).sum();
+  let last = outs.last().unwrap();
+  let all_fixed = outs.iter().all(|o| o.fixed_point);
+  let exhaustive_a = outs.iter().filter(|o| o.fixed_point).map(|o| o.bounds.nodes_ever_created).max();
+  rep.set("states", json!(states));
+  rep.set("transitions", json!(total.transitions));
+  rep.set("traces_validated_against_impl", json!(total.transitions));
+  rep.set("impl_operations_executed_in_replays", json!(total.replayed_ops));
+  rep.set("queries_checked", json!(total.queries));
+  rep.set("exhaustive", json!(all_fixed));
+  rep.set("fixed_point_reached", json!(all_fixed));
+  rep.set("exhaustive_for_nodes_ever_created", json!(exhaustive_a));
+  rep.set("max_depth", json!(outs.iter().map(|o| o.max_depth).max().unwrap_or(0)));
+  rep.set("depth_completely_covered", if last.fixed_point { json!("all (fixed point)") } else { json!(last.depth_completely_covered) });
+  rep.set("cap_hit", json!(last.cap_hit));
+  rep.set("bounds", json!({"nodes_ever_created": last.bounds.nodes_ever_created, "state_cap": state_cap, "wall_cap_s": wall_cap_s, "threads": threads}));
+  rep.set("phases", Value::Array(outs.iter().map(phase_json).collect()));
+  let outcomes: serde_json::Map<String, Value> = total.outcomes.iter().map(|(k, v)| (k.to_string(), json!(v))).collect();
+  rep.set("distinct_outcomes", json!({"count": outcomes.len(), "observed (operation -> result: transitions)": outcomes}));
+  rep.set("slot_reuse_transitions", json!(total.slot_reuse));
+  rep.set("samples", json!(outs.iter().flat_map(|o| o.samples.clone()).collect::<Vec<_>>()));
+  rep.set("violating_transitions", json!(outs.iter().map(|o| o.violating_transitions).sum::<u64>()));
+  rep.set("rule", json!(RULE));
+  rep.set("oracles", json!(match prop {
+    Prop::C10 => "C10: result of every operation vs the edge-set model (NodeMissing / CycleDetected / Ok(true|false), remove_* results without regard to edge data); \
+a rejected insertion leaves the complete observable state unchanged; ranks bijective onto 1..n = len(); rank(src) < rank(dst) for every model edge \
+and every API edge; API adjacency acyclic",
+    Prop::C11 => "C11: complete real state == complete model state after every operation (alive set, ordered outgoing/incoming lists with data, \
+no stray edge data); removals return exactly the removed data; a re-insertion changes nothing observable; contains_node, get_node_data, len, is_empty, contains_edge, get_edge_data, \
+contains_transitive_edge (twice, and again after an unrelated query), the eight adjacency accessors, symmetry, descendants_unsorted, descendants, \
+topo_cmp for all handles / ordered pairs ever created",
+  }));
+  rep.assume("DAG treats slotmap keys and edge data opaquely (argued in mc/src/dag.rs); hash seeds differ on every replay, and every replay is required to reproduce the recorded state bytes");
+  if outs.iter().any(|o| o.violating_transitions > 0) {
+    rep.assume("branches are not explored beyond their first violating transition");
+  }
+
+  let mut reported: Vec<Vec<Op>> = Vec::new();
+  for o in &outs {
+    println!(
+      "{} A={}: {} states, {} transitions, {} query comparisons, max depth {}, {} ({:.1}s)",
+      prop.id(), o.bounds.nodes_ever_created, o.states, o.stats.transitions, o.stats.queries, o.max_depth,
+      if o.fixed_point { "fixed point reached".to_string() } else { format!("{} hit, sequences up to length {} completely covered", o.cap_hit.unwrap_or("cap"), o.depth_completely_covered) },
+      o.wall_s
+    );
+    for (path, f) in &o.fails {
+      if reported.contains(path) { continue; } // the larger phase re-finds what the smaller one found
+      reported.push(path.clone());
+      rep.violation(make_violation(prop, path, f, Some(o.bounds.nodes_ever_created)));
+    }
+  }
+  rep.finish()
+}
+
+/// Runs `ops` on a fresh DAG with the oracles of `prop` after every operation. Returns the observation log and
+/// the first failure (position of the failing operation, oracle).
+fn run_ops_once(prop: Prop, ops: &[Op], stats: &mut Stats) -> (Vec<String>, usize, Option<(usize, Fail)>) {
+  let mut real = Real::new();
+  let mut model = Model::new();
+  let mut log = Vec::new();
+  let mut keys = std::collections::BTreeSet::new();
+  let mut obs = observe(&real);
+  keys.insert(encode_key(prop, &obs, &model, &real.slot_signature()));
+  for (p, op) in ops.iter().enumerate() {
+    if let Some(m) = op.max_handle() {
+      if m as usize >= real.handles.len() { engine_error(&format!("replay operation {} ({}) names a handle that was never created", p, op.render())); }
+    }
+    match step(prop, &mut real, &model, &obs, *op, marker_for(p), stats) {
+      Ok((o, m)) => {
+        log.push(format!("{} => {}", op.render(), o.to_json()));
+        keys.insert(encode_key(prop, &o, &m, &real.slot_signature()));
+        obs = o;
+        model = m;
+      }
+      Err(f) => {
+        log.push(format!("{} => FAIL {} observed {}", op.render(), f.oracle, f.observed));
+        return (log, keys.len(), Some((p, f)));
+      }
+    }
+  }
+  (log, keys.len(), None)
+}
+
+fn run_replay(args: &Args, prop: Prop, file: &std::path::Path) -> i32 {
+  let text = match std::fs::read_to_string(file) {
+    Ok(t) => t,
+    Err(e) => engine_error(&format!("cannot read replay file {}: {}", file.display(), e)),
+  };
+  let v: Value = match serde_json::from_str(&text) {
+    Ok(v) => v,
+    Err(e) => engine_error(&format!("replay file {} does not parse: {}", file.display(), e)),
+  };
+  let Some(list) = v.get("replay").and_then(|r| r.get("ops")).and_then(|o| o.as_array()) else {
+    engine_error("replay file has no replay.ops array");
+  };
+  let ops: Vec<Op> = list
+    .iter()
+    .map(|s| s.as_str().and_then(Op::parse).unwrap_or_else(|| engine_error(&format!("cannot parse replay operation {}", s))))
+    .collect();
+  if let Some(p) = v.get("property").and_then(|p| p.as_str()) {
+    if p != prop.id() { eprintln!("note: replay file was written for {}, evaluating the oracles of {}", p, prop.id()); }
+  }
+
+  let mut rep = Report::new(args);
+  let mut stats = Stats::default();
+  let (log1, n_states, fail1) = quiet_panics(|| run_ops_once(prop, &ops, &mut stats));
+  let (log2, _, fail2) = quiet_panics(|| run_ops_once(prop, &ops, &mut Stats::default()));
+  if log1 != log2 || fail1.as_ref().map(|f| (f.0, f.1.oracle.clone())) != fail2.as_ref().map(|f| (f.0, f.1.oracle.clone())) {
+    engine_error("two executions of the replay on fresh DAGs gave different observations");
+  }
+  rep.set("mode", json!("replay"));
+  rep.set("states", json!(n_states));
+  rep.set("transitions", json!(stats.transitions));
+  rep.set("traces_validated_against_impl", json!(stats.transitions));
+  rep.set("queries_checked", json!(stats.queries));
+  rep.set("samples", json!([render_path(&ops)]));
+  rep.set("exhaustive", json!(false));
+  rep.set("fixed_point_reached", json!(false));
+  rep.set("max_depth", json!(ops.len()));
+  rep.set("bounds", json!({"nodes_ever_created": ops.iter().filter(|o| **o == Op::AddNode).count(), "state_cap": null, "wall_cap_s": null}));
+  let outcomes: serde_json::Map<String, Value> = stats.outcomes.iter().map(|(k, v)| (k.to_string(), json!(v))).collect();
+  rep.set("distinct_outcomes", json!({"count": outcomes.len(), "observed (operation -> result: transitions)": outcomes}));
+  rep.set("rule", json!("replay of one recorded operation sequence, executed twice on fresh DAGs with the property's oracles after every operation"));
+  rep.set("observation_log", json!(log1));
+  match fail1 {
+    Some((p, f)) => {
+      let a = v.get("replay").and_then(|r| r.get("nodes_ever_created_bound")).and_then(|a| a.as_u64()).map(|a| a as usize);
+      rep.violation(make_violation(prop, &ops[..=p], &f, a))
+    }
+    None => println!("replay: no violation"),
+  }
+  rep.finish()
+}
+
+// ---------------------------------------------------------------------------------------------------------------
+// Tests
+// ---------------------------------------------------------------------------------------------------------------
+
+#[cfg(test)]
+mod tests {
+  use super::*;
+
+  fn bounds(a: usize) -> Bounds { Bounds { nodes_ever_created: a, state_cap: 1_000_000, wall_cap_s: 600.0, threads: 4 } }
+
+  fn run_path(ops: &[Op]) -> (Real, Model) {
+    let mut real = Real::new();
+    let mut model = Model::new();
+    for (p, op) in ops.iter().enumerate() {
+      real.apply(*op, marker_for(p));
+      model.apply(*op, marker_for(p));
+    }
+    (real, model)
+  }
+
+  #[test]
+  fn op_text_round_trips() {
+    for op in alphabet(3, 4) { assert_eq!(Op::parse(&op.render()), Some(op)); }
+    assert_eq!(Op::parse("frobnicate(1)"), None);
+  }
+
+  #[test]
+  fn tiny_search_c10_holds_and_is_deterministic() {
+    let a = search(Prop::C10, &bounds(3));
+    assert!(a.fixed_point);
+    assert!(a.fails.is_empty(), "{:?}", a.fails);
+    assert!(a.states > 100, "{} states", a.states);
+    for kind in ["add_edge -> Ok(true)", "add_edge -> Ok(false) [re-insertion]", "add_edge -> Err(NodeMissing)",
+      "add_edge -> Err(CycleDetected) [self loop]", "add_edge -> Err(CycleDetected) [path back]", "remove_edge -> Some(data)",
+      "remove_node -> true", "remove_node -> false [dead handle]", "remove_outgoing_edges_of_node -> Some(pairs)"] {
+      assert!(a.stats.outcomes.get(kind).copied().unwrap_or(0) > 0, "outcome {} never observed", kind);
+    }
+    assert!(a.stats.outcomes.get("add_edge -> Err(NodeMissing) [dead handle whose slot was reused]").copied().unwrap_or(0) > 0);
+    // Every observable state a correct DAG can be in was reached: 104 for at most 3 handles.
+    assert_eq!(closed_form_states(3, false), Some(104));
+    assert_eq!(closed_form_states(3, true), Some(104));
+    assert_eq!(closed_form_states(4, false), Some(13381));
+    assert_eq!(closed_form_states(4, true), Some(14149));
+    assert_eq!(closed_form_states(5, true), Some(42563495));
+    assert_eq!(a.states_modulo_slots, Some(104));
+    assert!(a.slot_signature_in_key && a.states > 104);
+    let b = search(Prop::C10, &Bounds { threads: 1, ..bounds(3) });
+    assert_eq!((a.states, a.stats.transitions, a.stats.queries, &a.level_sizes), (b.states, b.stats.transitions, b.stats.queries, &b.level_sizes));
+  }
+
+  #[test]
+  fn tiny_search_c11_reports_nothing_but_the_reinsertion_reordering() {
+    // On a tree with the re-insertion defect (add_edge on an existing edge moves the child to the back) the only
+    // admissible report is that one; on a repaired tree there is none.
+    let a = search(Prop::C11, &bounds(3));
+    assert!(a.fixed_point);
+    for (path, f) in &a.fails {
+      assert_eq!(f.oracle, "C11/outgoing-order", "{:?} {:?}", render_path(path), f);
+      assert!(matches!(path.last(), Some(Op::AddEdge(_, _))));
+    }
+    assert!(a.stats.queries > a.stats.transitions);
+  }
+
+  #[test]
+  fn model_classifies_add_edge() {
+    let (_, mut m) = run_path(&[Op::AddNode, Op::AddNode, Op::AddNode, Op::AddEdge(0, 1), Op::AddEdge(1, 2)]);
+    assert_eq!(m.clone().apply(Op::AddEdge(2, 0), 9), Res::Edge(Err(ErrKind::CycleDetected)));
+    assert_eq!(m.clone().apply(Op::AddEdge(1, 1), 9), Res::Edge(Err(ErrKind::CycleDetected)));
+    assert_eq!(m.clone().apply(Op::AddEdge(0, 1), 9), Res::Edge(Ok(false)));
+    assert_eq!(m.clone().apply(Op::AddEdge(0, 2), 9), Res::Edge(Ok(true)));
+    assert_eq!(m.apply(Op::RemoveNode(1), 9), Res::RemovedNode(true));
+    assert!(m.edges.is_empty());
+    assert_eq!(m.apply(Op::AddEdge(1, 1), 9), Res::Edge(Err(ErrKind::NodeMissing)));
+    assert_eq!(m.apply(Op::AddEdge(2, 0), 9), Res::Edge(Ok(true)));
+    assert_eq!(m.apply(Op::RemoveOut(2), 9), Res::RemovedOut(Some(vec![(0, 9)])));
+    assert_eq!(m.apply(Op::RemoveOut(2), 9), Res::RemovedOut(None));
+  }
+
+  #[test]
+  fn oracles_flag_deliberately_wrong_observations() {
+    let (real, model) = run_path(&[Op::AddNode, Op::AddNode, Op::AddNode, Op::AddEdge(0, 1), Op::AddEdge(0, 2), Op::AddEdge(1, 2)]);
+    let obs = observe(&real);
+    let mut q = 0;
+    assert!(c10_invariants(&model, &obs, &mut q).is_ok());
+    assert!(c11_state(&model, &obs, &mut q).is_ok());
+    assert!(c11_queries(&real, &model, &obs, &mut q).is_ok());
+    assert!(q > 50);
+
+    // Outgoing order swapped: exactly what the re-insertion defect produces.
+    let mut o = obs.clone();
+    o.out[0].swap(0, 1);
+    assert_eq!(c11_state(&model, &o, &mut q).unwrap_err().oracle, "C11/outgoing-order");
+    // Wrong data on an incoming edge.
+    let mut o = obs.clone();
+    o.inc[2][0].1 = 77;
+    assert_eq!(c11_state(&model, &o, &mut q).unwrap_err().oracle, "C11/incoming-data");
+    // An edge the model does not have.
+    let mut o = obs.clone();
+    o.out[2].push((0, 9));
+    assert_eq!(c11_state(&model, &o, &mut q).unwrap_err().oracle, "C11/outgoing-edges");
+    assert_eq!(c10_invariants(&model, &o, &mut q).unwrap_err().oracle, "C10/edge-order");
+    // Rank gap, duplicate rank, edge against the order.
+    let mut o = obs.clone();
+    o.rank[2] = Some(4);
+    assert_eq!(c10_invariants(&model, &o, &mut q).unwrap_err().oracle, "C10/rank-bijection");
+    let mut o = obs.clone();
+    o.rank[2] = o.rank[1];
+    assert_eq!(c10_invariants(&model, &o, &mut q).unwrap_err().oracle, "C10/rank-bijection");
+    let mut o = obs.clone();
+    o.rank.swap(0, 1);
+    assert_eq!(c10_invariants(&model, &o, &mut q).unwrap_err().oracle, "C10/edge-order");
+    // A model that disagrees with the real DAG about reachability makes the queries fail.
+    let mut wrong = model.clone();
+    wrong.apply(Op::RemoveEdge(1, 2), 0);
+    wrong.apply(Op::RemoveEdge(0, 2), 0);
+    assert!(c11_queries(&real, &wrong, &obs, &mut q).is_err());
+  }
+
+  #[test]
+  fn keys_ignore_marker_names_but_not_structure() {
+    let (r1, m1) = run_path(&[Op::AddNode, Op::AddNode, Op::AddEdge(0, 1)]);
+    let (r2, m2) = run_path(&[Op::AddNode, Op::AddNode, Op::AddEdge(0, 1), Op::RemoveEdge(0, 1), Op::AddEdge(0, 1)]);
+    assert_ne!(observe(&r1), observe(&r2)); // different markers ...
+    assert_eq!(encode_key(Prop::C11, &observe(&r1), &m1, &r1.slot_signature()), encode_key(Prop::C11, &observe(&r2), &m2, &r2.slot_signature())); // ... same state
+    let (r3, m3) = run_path(&[Op::AddNode, Op::AddNode, Op::AddEdge(1, 0)]);
+    assert_ne!(encode_key(Prop::C11, &observe(&r1), &m1, &[]), encode_key(Prop::C11, &observe(&r3), &m3, &[]));
+    // Dead handles stay dead when their slot is reused.
+    let (r4, _) = run_path(&[Op::AddNode, Op::RemoveNode(0), Op::AddNode]);
+    assert_eq!(observe(&r4).alive, vec![false, true]);
+    assert_eq!(r4.slot(0), r4.slot(1));
+  }
+}
